@@ -30,7 +30,7 @@ CASES = {"quick": 3000, "thorough": 150000}
 RULE = ("generated package trees (depth<=3) with classes (extends / uses references written as absolute dotted names), "
         "wrappers and boxes sharing start or whole span with their inner objects (2 and 3 levels), a postponement count 0-2 "
         "per reference, string / file load, 35% two-file models (main imports a library). non-trivial: >=1 qualified or "
-        "postponed reference and >=1 pair of nested objects with equal start; distinct by canonical JSON")
+        "postponed reference and >=1 pair of nested objects with equal start; also: Package/Cls as user classes, and definitions at offset 0 of their text referenced from the same and from an importing file; distinct by canonical JSON")
 ASSUMPTIONS = [
     "the reference text is the dotted name as written (no blanks inside)",
     "postponement schedules keep at least one reference resolving per round (counts are lowered until that holds)",
